@@ -439,7 +439,7 @@ def run(ctx):
                 continue
             fx2 = fx2 or FlowCx(P, f)
             tg = fx2.tags(t["args"][0])
-            if not any(x.startswith("call:") and x.endswith("::get_ref") for x in tg):
+            if not any(x.startswith("call:") and x.split("::")[-1] in ("get_ref", "get_mut", "into_inner") for x in tg):
                 continue  # a bare File (temp file, tail repair), nothing is buffered in user space
             nfs += 1
             fl = [b2 for b2, t2 in f.calls() if callee_name(t2).split("::")[-1] == "flush"]
@@ -454,6 +454,21 @@ def run(ctx):
                    what="%s fsyncs the log file without flushing its BufWriter first: records still in the user-space buffer are "
                         "reported durable by a sync / checkpoint / close that has not written them" % short_id(f.id), where=f.loc(t["line"]))
     ctx.floor("R8", nfs, 4, "fsyncs of the buffered log writer")
+    # tokio's BufWriter::into_inner (unlike std's) hands out the file and *discards* what is still buffered, and dropping
+    # a tokio BufWriter does not flush either: taking the file out of the log's writer needs a flush before it
+    for f in P.fns.values():
+        if not (f.id.startswith("grafeo_adapters::storage::wal::")):
+            continue
+        for bi, t in f.calls():
+            c = callee_name(t)
+            if not (c.startswith("tokio::io::") and c.endswith("::into_inner")):
+                continue
+            fl = [b2 for b2, t2 in f.calls() if callee_name(t2).split("::")[-1] == "flush"]
+            ok = any((bi in f.reachable_blocks(b2) if f.kind == "closure" else f.dominates(b2, bi)) and b2 != bi for b2 in fl)
+            ctx.ob("R8", "%s#flush-before-into_inner" % short_id(f.id), ok,
+                   what="%s takes the file out of a tokio BufWriter without flushing it: into_inner() discards the buffered records "
+                        "(std's flushes, tokio's does not), so records that were acknowledged never reach the file" % short_id(f.id),
+                   where=f.loc(t["line"]))
     # dropping the database closes it (commit marker, checkpoint, sync)
     ddrop = P.method("GrafeoDB", "Drop", "drop")
     ctx.ob("R8", "GrafeoDB#drop-closes", close.id in P.reach([ddrop]),
